@@ -794,18 +794,7 @@ func paCleanupOps(c *ctx) []string {
 	paMustContainCall(c, c.funcDecl(paRepo, "Repository", "closeRepositoryEntry"), "entry.CRLStore.Close")
 	// addNewEmptyEntry: Loaded is inferred from IsEmpty; IsEmpty looks at the meta key
 	ae := c.funcDecl(paRepo, "Repository", "addNewEmptyEntry")
-	inferred := false
-	ast.Inspect(ae.Body, func(n ast.Node) bool {
-		if ifs, ok := n.(*ast.IfStmt); ok && exprStr(ifs.Cond) == "store.IsEmpty()==false" && len(ifs.Body.List) == 1 {
-			if as, ok := ifs.Body.List[0].(*ast.AssignStmt); ok && exprStr(as.Lhs[0]) == "newEntry.Loaded" && exprStr(as.Rhs[0]) == "true" {
-				inferred = true
-			}
-		}
-		return true
-	})
-	if !inferred {
-		fail("%s: addNewEmptyEntry: expected `if store.IsEmpty() == false { newEntry.Loaded = true }`", c.pos(ae))
-	}
+	c.loadedInference(ae)
 	cs := paCalls(ae.Body, "R.Factory.CreateStore")
 	if len(cs) != 1 || exprStr(cs[0]) != "R.Factory.CreateStore(identifier,false)" {
 		fail("%s: addNewEmptyEntry: expected R.Factory.CreateStore(identifier, false)", c.pos(ae))
@@ -879,4 +868,51 @@ func genPaths(c *ctx, out string) {
 		"updateOps": upd, "loadProgram": load, "refreshProgram": refresh, "provisionOps": prov, "cleanupOps": clean,
 		"metaWriteHits": metaHits, "entryWriteHits": entryHits,
 	}
+}
+
+// loadedInference recognises how addNewEmptyEntry infers Loaded for a store found on disk and reports whether, under
+// 'verify', a persisted list without stored signer certificate is left unloaded:
+//
+//	if store.IsEmpty() == false { newEntry.Loaded = true }                                   -> false
+//	if store.IsEmpty() == false {
+//	    _, signatureCertErr := store.GetCRLSignatureCert()
+//	    if <mode> == config.SignatureValidationModeVerify && signatureCertErr != nil { <log> } else { newEntry.Loaded = true }
+//	}                                                                                         -> true
+func (c *ctx) loadedInference(ae *ast.FuncDecl) bool {
+	res, found := false, false
+	isSet := func(st ast.Stmt) bool {
+		as, ok := st.(*ast.AssignStmt)
+		return ok && exprStr(as.Lhs[0]) == "newEntry.Loaded" && exprStr(as.Rhs[0]) == "true"
+	}
+	ast.Inspect(ae.Body, func(n ast.Node) bool {
+		ifs, ok := n.(*ast.IfStmt)
+		if !ok || exprStr(ifs.Cond) != "store.IsEmpty()==false" {
+			return true
+		}
+		switch {
+		case len(ifs.Body.List) == 1 && isSet(ifs.Body.List[0]):
+			found = true
+		case len(ifs.Body.List) == 2:
+			as, ok1 := ifs.Body.List[0].(*ast.AssignStmt)
+			in, ok2 := ifs.Body.List[1].(*ast.IfStmt)
+			if ok1 && ok2 && len(as.Lhs) == 2 && exprStr(as.Lhs[0]) == "_" && exprStr(as.Lhs[1]) == "signatureCertErr" && exprStr(as.Rhs[0]) == "store.GetCRLSignatureCert()" &&
+				exprStr(in.Cond) == "R.crlConfig.SignatureValidationModeParsed==config.SignatureValidationModeVerify&&signatureCertErr!=nil" {
+				eb, isBlock := in.Else.(*ast.BlockStmt)
+				setInThen := false
+				for _, st := range in.Body.List {
+					if isSet(st) {
+						setInThen = true
+					}
+				}
+				if isBlock && len(eb.List) == 1 && isSet(eb.List[0]) && !setInThen {
+					found, res = true, true
+				}
+			}
+		}
+		return false
+	})
+	if !found {
+		fail("%s: addNewEmptyEntry: the inference of Loaded from the store found on disk is not recognised", c.pos(ae))
+	}
+	return res
 }
